@@ -251,8 +251,33 @@ def run_shard(desc):
     if k == 'drives':
         o = run_drives(desc)
         o.merge(run_letterless())
+        o.merge(run_neg_sep())
         return o
     raise HarnessError(k)
+
+
+def run_neg_sep():
+    """`!(...)` directly before a separator: the group ends at the separator however it is written (`/`, an escaped backslash, runs
+    of both) under Windows rules."""
+    out = Outcome()
+    out.exhaustive = True
+    names = [a + sep + b for a in ('a', 'A', 'b', 'ab', 'src', 'build', 'x') for sep in ('/', '\\', '//') for b in ('b', 'B', 'a', 'm.py', 'x')] + \
+        ['src/build/m.py', 'src\\build\\m.py', 'src/x/m.py', 'src\\x\\m.py', 'a', 'b', 'a/b/c', 'x\\a\\b']
+    for text in ('!(a)/b', 'src/!(build)/*.py', '!(a|B)/?', '*/!(a)', '!(a)/!(b)', '@(!(a))/b', '!(src)/x', '?(a)!(b)/m.py'):
+        for fnames in (['FORCEWIN'], ['FORCEWIN', 'CASE'], ['FORCEWIN', 'GLOBSTAR'], ['FORCEWIN', 'DOTGLOB']):
+            fl = flagval('gl', fnames)
+            a = accepted('gl', text, names, fl)
+            for form in (text.replace('/', '\\\\'), text.replace('/', '\\\\/'), text.replace('/', '/\\\\'), text.replace('/', '//')):
+                b = accepted('gl', form, names, fl)
+                out.evaluations += len(names)
+                if a != b:
+                    d = sorted(a ^ b)[0]
+                    out.violation({'mode': 'gl', 'pattern': text, 'escaped_backslash_form': form, 'flags': fnames, 'name': d,
+                                   'relation': 'escaped backslash in the pattern is a separator'}, bucket=('R5p-neg', text))
+                    break
+            if a:
+                out.nontrivial(('neg-sep', text, tuple(fnames)))
+    return out
 
 
 def run_letterless():
@@ -552,6 +577,12 @@ def replay(case):
             p, n = p.encode(), n.encode()
         got = bool(G.globmatch(n, p, flags=fl))
         return got == case['want'], {'impl': got}
+    if 'escaped_backslash_form' in case or 'doubled_separator_form' in case:
+        fl = flagval('gl', case['flags'])
+        other = case.get('escaped_backslash_form', case.get('doubled_separator_form'))
+        a = bool(G.globmatch(case['name'], case['pattern'], flags=fl))
+        b = bool(G.globmatch(case['name'], other, flags=fl))
+        return a == b, {'plain': a, 'other_spelling': b}
     o = Outcome()
     names = sorted({case['name'], case.get('variant', case['name']), swap_ascii(case['name']), case['name'].upper(), case['name'].lower()})
     obj = A.from_json(case['ast']) if case.get('ast') is not None else None
